@@ -311,7 +311,12 @@ func genPathQuery(rng *rand.Rand, pool []*variant) *pquery {
 func genPathHistory(rng *rand.Rand, pool []*variant, nOps int) []pathOp {
 	var ops []pathOp
 	inTx := false
-	nqIA := pickASes(rng, 2)
+	// next-query pairs over a small pool whose members share ISD or AS number
+	// (incl. the ISD wildcard form I-0), so that rows differing in one key column
+	// only are frequent
+	nqAS := []addr.AS{0, 64496, 0xff00_0000_0110, 0xff00_0000_0133}
+	a1, a2 := nqAS[rng.IntN(len(nqAS))], nqAS[rng.IntN(len(nqAS))]
+	nqIA := []addr.IA{addr.MustIAFrom(1, a1), addr.MustIAFrom(2, a1), addr.MustIAFrom(1, a2), addr.MustIAFrom(2, a2)}
 	for len(ops) < nOps {
 		var op pathOp
 		switch w := rng.IntN(100); {
@@ -338,10 +343,10 @@ func genPathHistory(rng *rand.Rand, pool []*variant, nOps int) []pathOp {
 		case w < 84:
 			op = pathOp{Kind: "get-all"}
 		case w < 90:
-			op = pathOp{Kind: "nq-insert", Src: uint64(nqIA[rng.IntN(2)]), Dst: uint64(nqIA[rng.IntN(2)]),
+			op = pathOp{Kind: "nq-insert", Src: uint64(nqIA[rng.IntN(4)]), Dst: uint64(nqIA[rng.IntN(4)]),
 				T: baseTS*1e9 + []int64{0, 1, 1e9, -1e9, 5e8, 2e9}[rng.IntN(6)]}
 		case w < 94:
-			op = pathOp{Kind: "nq-get", Src: uint64(nqIA[rng.IntN(2)]), Dst: uint64(nqIA[rng.IntN(2)])}
+			op = pathOp{Kind: "nq-get", Src: uint64(nqIA[rng.IntN(4)]), Dst: uint64(nqIA[rng.IntN(4)])}
 		default:
 			if !inTx {
 				op = pathOp{Kind: "begin"}
